@@ -77,7 +77,15 @@ func New(filename string, src io.Reader) (*Lexer, error) {
 		src = bytes.NewReader(data)
 	}
 
-	in, err := input.New(filename, src, bufferSize)
+	// The input buffer loads a half a second time when a character is retracted across the boundary between its
+	// two halves, which skips a whole half of the source. Each half is made large enough to hold the entire input
+	// (including the appended line terminator), so that the boundary is never reached.
+	size := bufferSize
+	if len(data)+1 >= size {
+		size = len(data) + 2
+	}
+
+	in, err := input.New(filename, src, size)
 	if err != nil {
 		return nil, err
 	}
